@@ -45,6 +45,10 @@ func init() {
 				wInsert: 8, wAt: 8, wRange: 3, wDelete: 3, wDeleteAll: 1,
 				pAbort: 0.12, pMerge: 0.35, maxCols: 12, multiBlock: 0.5}
 			cs := genSeq("C01", seed, run, p, knownAvoid("C01", seed, run))
+			if run%40 == 17 {
+				emptiedTopBlockTemplate(cs, seed, run)
+				return cs
+			}
 			if pf := cs.Cfg.Prefill; run%40 == 7 && pf != nil && len(pf.Survivors) > 0 {
 				// rarely reached size: an enum column whose string table holds more than 65536 entries
 				for _, c := range cs.Schema {
